@@ -327,95 +327,101 @@ def run_case(case, rec=None, count=True):
                             % (kind.name, case["src"], n, before[n], after[n], steps))
         return chain2
 
-    for i, (prop, vclass, ev) in enumerate(steps):
-        if i in reopen:
-            chain = do_reopen(chain)
-            classes.append("reopen:mid" if i else "reopen:first")
-        row = kind.row(prop)
-        K = "C09:%s" % (row.owner or kind.key)
-        obj = chain[-1]
-        value = T.decode(ev)
-        before = snapshot(kind, chain)
-        if row.pre is not None and not row.pre(before):
-            skipped += 1
-            classes.append("skipped-precondition")
-            continue
-        props.add(prop)
-        classes.append("vc:" + vclass)
-        classes.append("row:%s.%s" % (kind.cls, prop))
-        if vclass != "int":
-            nontrivial = True
-        where = "%s (%s) step %d: %s = %r" % (kind.name, case["src"], i, prop, ev)
-        if vclass == "ood":
-            try:
+    try:
+        for i, (prop, vclass, ev) in enumerate(steps):
+            if i in reopen:
+                chain = do_reopen(chain)
+                classes.append("reopen:mid" if i else "reopen:first")
+            row = kind.row(prop)
+            K = "C09:%s" % (row.owner or kind.key)
+            obj = chain[-1]
+            value = T.decode(ev)
+            before = snapshot(kind, chain)
+            if row.pre is not None and not row.pre(before):
+                skipped += 1
+                classes.append("skipped-precondition")
+                continue
+            props.add(prop)
+            classes.append("vc:" + vclass)
+            classes.append("row:%s.%s" % (kind.cls, prop))
+            if vclass != "int":
+                nontrivial = True
+            where = "%s (%s) step %d: %s = %r" % (kind.name, case["src"], i, prop, ev)
+            if vclass == "ood":
+                try:
+                    do_set(row, obj, value)
+                except (TypeError, ValueError):
+                    pass
+                except Exception as e:
+                    origin, frame = core.origin_of(e)
+                    if origin != "sut":
+                        raise
+                    raise Violation("%s:set=%s:ood-raises=%s" % (K, prop, type(e).__name__),
+                                    "%s raised %s (%s) at %s, not TypeError/ValueError"
+                                    % (where, type(e).__name__, str(e)[:120], frame))
+                else:
+                    raise Violation("%s:set=%s:ood-accepted" % (K, prop),
+                                    "%s was accepted; reading now %r" % (where, snapshot(kind, chain).get(prop)))
+                after = snapshot(kind, chain)
+                bad = _diff(before, after)
+                if bad:
+                    n = prop if prop in bad else bad[0]
+                    raise Violation("%s:set=%s:rejected-changes-state" % (K, prop),
+                                    "%s was rejected but reading %s changed from %r to %r (all changed: %s)"
+                                    % (where, n, before[n], after[n], bad))
+                continue
+            with core.sut("%s:set=%s" % (K, prop)):
                 do_set(row, obj, value)
-            except (TypeError, ValueError):
-                pass
-            except Exception as e:
-                origin, frame = core.origin_of(e)
-                if origin != "sut":
-                    raise
-                raise Violation("%s:set=%s:ood-raises=%s" % (K, prop, type(e).__name__),
-                                "%s raised %s (%s) at %s, not TypeError/ValueError"
-                                % (where, type(e).__name__, str(e)[:120], frame))
-            else:
-                raise Violation("%s:set=%s:ood-accepted" % (K, prop),
-                                "%s was accepted; reading now %r" % (where, snapshot(kind, chain).get(prop)))
             after = snapshot(kind, chain)
-            bad = _diff(before, after)
+            # -- own reading
+            if vclass == "none":
+                exp = row.none.reading
+                if not same(after[prop], exp):
+                    raise Violation("%s:set=%s:none-reading" % (K, prop),
+                                    "%s: reading is %r, documented inherited reading is %r" % (where, after[prop], exp))
+                if row.none.explicit(obj, chain):
+                    raise Violation("%s:set=%s:none-explicit-left" % (K, prop),
+                                    "%s: the explicit attribute/element is still present in the XML" % where)
+            else:
+                try:
+                    raw = readings[prop](obj, chain)
+                except Exception as e:
+                    raise Violation("%s:set=%s:readback" % (K, prop),
+                                    "%s: getter raises %s afterwards" % (where, type(e).__name__))
+                why = eq_check(row.eq, ev, value, raw)
+                if why:
+                    raise Violation("%s:set=%s:readback" % (K, prop),
+                                    "%s: reading is %r (%s; equivalence %s)" % (where, norm(raw), why, row.eq))
+                if row.default is not None and value == T.decode(row.default[0]) and row.default[1](obj, chain):
+                    raise Violation("%s:set=%s:default-explicit-left" % (K, prop),
+                                    "%s: the assigned value is the attribute's default, yet the explicit "
+                                    "attribute is still present in the XML" % where)
+            # -- documented couplings
+            expects = row.expect(ev, before) if row.expect is not None else {}
+            for name in sorted(expects):
+                exp = expects[name]
+                got = after[name]
+                ok = exp(got) if callable(exp) else same(got, exp)
+                if not ok:
+                    raise Violation("%s:set=%s:coupled=%s" % (K, prop, name),
+                                    "%s: documented coupling: reading %s is %r (before %r)%s"
+                                    % (where, name, got, before[name],
+                                       "" if callable(exp) else ", expected %r" % (exp,)))
+            # -- independent siblings
+            sibs = [n for n in readings if n != prop and n not in row.affects and n not in expects]
+            bad = _diff(before, after, sibs)
             if bad:
-                n = prop if prop in bad else bad[0]
-                raise Violation("%s:set=%s:rejected-changes-state" % (K, prop),
-                                "%s was rejected but reading %s changed from %r to %r (all changed: %s)"
-                                % (where, n, before[n], after[n], bad))
-            continue
-        with core.sut("%s:set=%s" % (K, prop)):
-            do_set(row, obj, value)
-        after = snapshot(kind, chain)
-        # -- own reading
-        if vclass == "none":
-            exp = row.none.reading
-            if not same(after[prop], exp):
-                raise Violation("%s:set=%s:none-reading" % (K, prop),
-                                "%s: reading is %r, documented inherited reading is %r" % (where, after[prop], exp))
-            if row.none.explicit(obj, chain):
-                raise Violation("%s:set=%s:none-explicit-left" % (K, prop),
-                                "%s: the explicit attribute/element is still present in the XML" % where)
-        else:
-            try:
-                raw = readings[prop](obj, chain)
-            except Exception as e:
-                raise Violation("%s:set=%s:readback" % (K, prop),
-                                "%s: getter raises %s afterwards" % (where, type(e).__name__))
-            why = eq_check(row.eq, ev, value, raw)
-            if why:
-                raise Violation("%s:set=%s:readback" % (K, prop),
-                                "%s: reading is %r (%s; equivalence %s)" % (where, norm(raw), why, row.eq))
-            if row.default is not None and value == T.decode(row.default[0]) and row.default[1](obj, chain):
-                raise Violation("%s:set=%s:default-explicit-left" % (K, prop),
-                                "%s: the assigned value is the attribute's default, yet the explicit "
-                                "attribute is still present in the XML" % where)
-        # -- documented couplings
-        expects = row.expect(ev, before) if row.expect is not None else {}
-        for name in sorted(expects):
-            exp = expects[name]
-            got = after[name]
-            ok = exp(got) if callable(exp) else same(got, exp)
-            if not ok:
-                raise Violation("%s:set=%s:coupled=%s" % (K, prop, name),
-                                "%s: documented coupling: reading %s is %r (before %r)%s"
-                                % (where, name, got, before[name],
-                                   "" if callable(exp) else ", expected %r" % (exp,)))
-        # -- independent siblings
-        sibs = [n for n in readings if n != prop and n not in row.affects and n not in expects]
-        bad = _diff(before, after, sibs)
-        if bad:
-            n = bad[0]
-            raise Violation("%s:set=%s:sibling=%s" % (K, prop, n),
-                            "%s: reading %s changed from %r to %r" % (where, n, before[n], after[n]))
-    if len(steps) in reopen:
-        chain = do_reopen(chain)
-        classes.append("reopen:end")
+                n = bad[0]
+                raise Violation("%s:set=%s:sibling=%s" % (K, prop, n),
+                                "%s: reading %s changed from %r to %r" % (where, n, before[n], after[n]))
+        if len(steps) in reopen:
+            chain = do_reopen(chain)
+            classes.append("reopen:end")
+    except Violation:
+        # a case that ends in a violation (known findings included) is still an evaluated case
+        if rec is not None and count:
+            rec.note(case, True, classes=classes + ["outcome:violation"])
+        raise
     if len(props) >= 2:
         nontrivial = True
     if rec is not None and count:
